@@ -11,7 +11,6 @@ type (
 	Mutex     = vsched.Mutex
 	RWMutex   = vsched.RWMutex
 	WaitGroup = vsched.WaitGroup
-	Once      = sync.Once
 	Cond      = sync.Cond
 	Locker    = sync.Locker
 	Map       = sync.Map
@@ -21,3 +20,19 @@ type (
 func NewCond(l Locker) *Cond { return sync.NewCond(l) }
 
 func OnceFunc(f func()) func() { return sync.OnceFunc(f) }
+
+// Once is sync.Once on top of the controlled mutex: a second caller waits (as a blocked thread the checker
+// sees) until the first call of f has returned, exactly like the original.
+type Once struct {
+	mu   vsched.Mutex
+	done bool
+}
+
+func (o *Once) Do(f func()) {
+	o.mu.Lock()
+	defer o.mu.Unlock()
+	if !o.done {
+		defer func() { o.done = true }()
+		f()
+	}
+}
